@@ -69,10 +69,13 @@ def load_known():
     return json.load(open(p))
 
 
-def matches_known(finding, scenario):
+def matches_known(finding, scenario, rec=None):
+    from harness import known_helpers
+    env = {k: getattr(known_helpers, k) for k in dir(known_helpers) if not k.startswith("_")}
+    env.update({"s": scenario, "p": scenario.get("params", {}), "h": scenario.get("holes", {}) or {},
+                "failed": (rec or {}).get("native_failed", []) or [(rec or {}).get("obligation", "")]})
     try:
-        return bool(eval(finding["match"], {"__builtins__": {"len": len, "any": any, "all": all, "set": set}},
-                         {"s": scenario, "p": scenario.get("params", {}), "h": scenario.get("holes", {})}))
+        return bool(eval(finding["match"], {"__builtins__": {"len": len, "any": any, "all": all, "set": set, "str": str}}, env))
     except Exception:
         return False
 
@@ -125,7 +128,7 @@ def run_check(check_id, tier, seed, log=print):
         if rec.get("reproduced"):
             hit = None
             for f in known["findings"]:
-                if f["property"] == check_id and matches_known(f, sc):
+                if f["property"] == check_id and matches_known(f, sc, rec):
                     hit = f
                     break
             if hit is not None:
